@@ -386,6 +386,20 @@ def run(rep, variant, X, tier):
         for pmsg in sorted(set(problems))[:4]:
             rep.fail("abi", "first_round=%d: %s" % (fr, pmsg))
         total += X.shape[1]
+    def free_call():
+        m = ArmMachine(prog, labels, words, 0, a64, data)
+        m.run("ascon_backend_free")
+        ws = m.ws
+        out = np.stack([m.mem.cells[(STATE + ws * i, ws)] for i in range(40 // ws)])
+        problems = list(m.mem.violations)
+        for r, v in m.sent.items():
+            cur = m.reg.get(r)
+            if not isinstance(cur, np.ndarray) or not (cur == v).all():
+                problems.append("callee-saved register %s not restored" % r)
+        if m.reg.get("sp") != SP0:
+            problems.append("stack pointer not restored (entry%+d)" % (m.reg.get("sp", 0) - SP0))
+        return out, problems
+    total += second_entry(rep, labels, free_call, words)
     rep.stat("evaluations", total)
     rep.stat("nontrivial", total)
     print("SAMPLE emulated %s: %d instructions, %d states x 12 starting rounds, callee-saved registers / sp / load-store bounds checked" % (variant, len(prog), X.shape[1]))
